@@ -104,6 +104,11 @@ Rx == /\ Is("Rx")
                         "DeliveredToForeignConnection")
               \* an intact datagram for an ID its issuer considers active reaches the issuer
               \cup Flag((e.intact /\ ~e.zl /\ activeAtOwner) => e.uid = o, "ActiveIdNotRouted")
+              \* a datagram that matches no ID but ends in the stateless reset token of the ID a live
+              \* connection of this endpoint is sending to is that connection's (RFC 9000 10.3.1) -
+              \* whatever became of the endpoint's other connections to the same peer
+              \cup Flag((e.uid = -1 /\ e.kind \in {"none", "resp"} /\ e.tokuid # -1 /\ e.tokuid \notin drained) => FALSE,
+                        "ResetTokenNotRouted")
       /\ excused' = IF RetryCollision THEN excused \cup {e.suid} ELSE excused
       /\ l' = l + 1 /\ UNCHANGED <<owner, seqOf, act, node, puid, ikeyOf, drained, lens, retry, cur>>
 
